@@ -52,21 +52,27 @@ def WriteLoop.run (w : WriteLoop) (evs : List WEvent) : WriteLoop := evs.foldl W
 
 /-! ### websocket read adapter -/
 
-/-- what `WebSocket::read` yields: a data message (binary or text payload) or a control message
-    (ping, pong, close: `MessageCursor::new` gives `None`) -/
+/-- what `WebSocket::read` yields: a data message (binary or text payload), a control message
+    (ping, pong, close: `MessageCursor::new` gives `None`), a failure that is reported once (a malformed frame),
+    or the end of the stream (a failure that every later `WebSocket::read` reports again) -/
 inductive WsMsg where
   | data (payload : Bytes)
   | control
+  | fail
+  | eof
   deriving Repr, BEq, DecidableEq
 
 structure WsReader where
   /-- `current_read_message`: payload and cursor index -/
   cur : Option (Bytes × Nat) := none
+  /-- `final_error`: a failure seen but not yet reported to the caller -/
+  failed : Bool := false
   deriving Repr, BEq, DecidableEq, Inhabited
 
 inductive WsResult where
   | ok (bytes : Bytes)
   | wouldBlock
+  | err
   deriving Repr, BEq, DecidableEq
 
 /-- `MessageCursor::read` into a destination with `space` bytes free: (bytes copied, new index) -/
@@ -83,15 +89,21 @@ def wsLoop : Nat → WsReader → List WsMsg → Nat → Bytes → WsReader × L
     else
       match r.cur with
       | none =>
+        -- a remembered failure is reported only when this call has nothing to hand over; bytes copied so far go first
+        if r.failed then
+          (if acc.isEmpty then ({ r with failed := false }, arrived, .err) else (r, arrived, .ok acc))
+        else
         (match arrived with
          | [] => (r, arrived, if acc.isEmpty then .wouldBlock else .ok acc)
          | .control :: rest => wsLoop fuel r rest bufLen acc
-         | .data p :: rest => wsLoop fuel { cur := some (p, 0) } rest bufLen acc)
+         | .data p :: rest => wsLoop fuel { r with cur := some (p, 0) } rest bufLen acc
+         | .fail :: rest => wsLoop fuel { r with failed := true } rest bufLen acc
+         | .eof :: rest => wsLoop fuel { r with failed := true } (.eof :: rest) bufLen acc)
       | some (data, index) =>
         let (got, index') := cursorRead data index (bufLen - acc.length)
         let acc' := acc ++ got
-        if acc'.length < bufLen then wsLoop fuel { cur := none } arrived bufLen acc'
-        else wsLoop fuel { cur := some (data, index') } arrived bufLen acc'
+        if acc'.length < bufLen then wsLoop fuel { r with cur := none } arrived bufLen acc'
+        else wsLoop fuel { r with cur := some (data, index') } arrived bufLen acc'
 
 def WsReader.read (r : WsReader) (arrived : List WsMsg) (bufLen : Nat) : WsReader × List WsMsg × WsResult :=
   wsLoop (2 * arrived.length + 4) r arrived bufLen []
